@@ -249,7 +249,7 @@ def extras_sources(f):
     base = '<%page args="x=\'dx\'"/>' if False else ""
     base = "BASE(" + ('<%block name="b">B1</%block>' if f["base_declares_b"] else "-") + " " + \
         ("${next.body(x='bx')}" if f["body_argument"] else "${next.body()}") + (' <%include file="inc"/>' if f["include_in"] == "base" else "") + ")"
-    derived = '<%inherit file="base"/><%page args="x=\'dx\'"/>' + ('<%block name="b">B0</%block>' if f["derived_overrides_b"] else "") + \
+    derived = '<%inherit file="base"/><%page args="x=\'dx\'"/>' + (('<%block name="b"' + (' buffered="True"' if f.get("override_is_buffered") else "") + '>B0</%block>') if f["derived_overrides_b"] else "") + \
         "D(x=${x}" + (' <%include file="inc"/>' if f["include_in"] == "derived" else "") + ")"
     return {"inc": inc, "base": base, "derived": derived}
 
@@ -279,7 +279,7 @@ def extras_case(LKm, f):
 
 
 def h_extras(p):
-    f = {k: bool(p.choose(2, k)) for k in ("included_declares_b", "base_declares_b", "derived_overrides_b", "body_argument", "x_in_context")}
+    f = {k: bool(p.choose(2, k)) for k in ("included_declares_b", "base_declares_b", "derived_overrides_b", "body_argument", "x_in_context", "override_is_buffered")}
     f["include_in"] = ["derived", "base"][p.choose(2, "include_in")]
     return dict(f=f, got=extras_case(LK, f))
 
